@@ -1060,8 +1060,9 @@ func (p *Prog) finish(f *Func, st *pstate, rs []*Term, pos token.Pos, out *[]*Pa
 				}
 				pa.Out[i] = t
 			}
-		} else if ok {
-			// a pointer to a scalar / slice bound to the address of a caller's value (specialised walk): its final pointee
+		} else if _, isIface := pr.Type().Underlying().(*types.Interface); ok || isIface {
+			// a pointer to a scalar / slice (or an interface holding a pointer) bound to the address of a caller's
+			// value (specialised walk): its final pointee
 			if t, bound := st.vars[pr]; bound && t.Op == "&" && len(t.A) == 1 {
 				if pa.Out == nil {
 					pa.Out = map[int]*Term{}
